@@ -341,6 +341,13 @@ fn main() {
     }
 }
 `},
+		{"small:parenthesised-operands-that-bind-weaker-than-the-comparison", `fn same(a: bool, b: bool, c: bool) -> bool { (a && b) == c }
+fn bit(flags: int, mask: int) -> bool { (flags & mask) != 0 }
+fn main() {
+    println(same(false, true, true), same(true, true, true), same(false, false, false));
+    println(bit(6, 2), bit(4, 2), (1 | 2) < 4, (true || false) != (false && true));
+}
+`},
 		{"small:comparisons-in-every-position", `fn le(a: int, b: int) -> bool { a * 2 <= b * 3 }
 fn main() {
     let a = 2;
